@@ -494,6 +494,10 @@ def stepOld (st0 : St) (ts : List String) : St × String :=
   | ["xtext", b] => match parseBytes b with
     | some bs => let d := st.disk.set 0 (some bs); ({ st with disk := d }, textStr d 0)
     | none => (st, "bad-op")
+  | ["xdirlines"] =>
+    -- lines() of a directory: `fopen` succeeds, the first `fgets` fails with the error indicator set and the loop stops
+    -- after the one (empty) line it had already pushed; the model has no directories: this is the transcribed constant
+    (st, showLines [[]])
   | ["xwlines", b] => match parseBytes b with
     | some bs =>
       let d0 := st.disk.set 0 none
